@@ -168,7 +168,7 @@ def translate(repo):
     P = []   # problems
     L = ["(* GENERATED by props/srcparams.py from the repository source on every run -- do not edit. *)",
          "From Coq Require Import List NArith ZArith Bool.",
-         "From SV Require Import Base.Regex.",
+         "From SV Require Import Base.Regex Base.SrcAst.",
          "Import ListNotations.", "Open Scope N_scope.", ""]
 
     # ---- src/util.rs: copy_chunked_async
@@ -198,6 +198,23 @@ def translate(repo):
         # keep the model meaningful (the values of the pinned commit); the proof step is red because of
         # src_translation_problems > 0 (Tie/ChunkTie.v: translation_complete)
         buf_len, lo, hi, shifts, term, crlf_at = 65536, 6, 65534, [(0, 12), (1, 8), (2, 4), (3, 0)], b"0\r\n\r\n", [(4, 13), (5, 10)]
+    # ---- src/util.rs: hex_digit (a 16-entry table) and trim_prefix (the leading-zero loop)
+    hexd = []
+    try:
+        usrc = read(repo, "src/util.rs")
+        body = fn_body(usrc, "fn hex_digit")
+        for m in re.finditer(r"(\d+)\s*=>\s*b'(.)'\s*,", body):
+            hexd.append((int(m.group(1)), ord(m.group(2))))
+        if len(hexd) != 16 or not re.search(r"_\s*=>\s*unimplemented!\(\)", body) or len(re.findall(r"=>", body)) != 17:
+            raise ValueError("hex_digit arms")
+        tb = re.sub(r"\s+", "", fn_body(usrc, "fn trim_prefix"))
+        if tb != "while!slice.is_empty()&&slice[0]==prefix{slice=&slice[1..];}slice":
+            raise ValueError("trim_prefix body")
+    except Exception as e:   # noqa
+        P.append("src/util.rs hex_digit / trim_prefix: cannot translate (%s)" % e)
+        hexd = [(i, ord("0123456789abcdef"[i])) for i in range(16)]
+    L += ["(* src/util.rs hex_digit: the arms of the match, (argument, byte) *)",
+          "Definition src_hex_digit_table : list (N * N) := [%s]." % ";".join("(%d,%d)" % e for e in hexd), ""]
     L += ["(* src/util.rs copy_chunked_async *)",
           "Definition src_chunk_buf_len : N := %d." % buf_len,
           "Definition src_chunk_read_lo : N := %d." % lo,
@@ -327,6 +344,51 @@ def translate(repo):
           "Definition src_event_type_fmt : list N * list N := (%s, %s)." % (coq_bytes(ev_type[0]), coq_bytes(ev_type[1])),
           "Definition src_event_data_fmt : list N * list N := (%s, %s)." % (coq_bytes(ev_data[0]), coq_bytes(ev_data[1])), ""]
 
+    # ---- src/cookie.rs: impl Display for Cookie, statement by statement
+    segs = []
+    try:
+        csrc = read(repo, "src/cookie.rs")
+        i = csrc.index("impl Display for Cookie")
+        body = fn_body(csrc[i:], "fn fmt")
+        GUARDS = {"!self.domain.is_empty()": "GDomainNonEmpty", "self.expires!=SystemTime::UNIX_EPOCH": "GExpiresSet",
+                  "self.http_only": "GHttpOnly", "self.max_age>Duration::ZERO": "GMaxAgePositive",
+                  "!self.path.is_empty()": "GPathNonEmpty", "self.secure": "GSecure"}
+        ARGS = {None: "ANone", "self.domain.as_str()": "ADomain", "self.expires.iso8601_utc()": "AExpiresIso",
+                "self.max_age.as_secs()": "AMaxAgeSecs", "self.path.as_str()": "APath"}
+        rest = body.strip()
+        WR = r'write!\(\s*f\s*,\s*"((?:[^"\\]|\\.)*)"\s*(?:,\s*([^;{}]*?))?\s*\)\?'
+        m = re.match(r'write!\(\s*f\s*,\s*"\{\}((?:[^"\\{]|\\.)*)\{\}"\s*,\s*self\.name\.as_str\(\)\s*,\s*self\.value\.as_str\(\)\s*\)\?\s*;', rest)
+        if not m:
+            raise ValueError("first statement (name=value)")
+        segs.append("SegNameValue %s" % coq_bytes(rust_unescape(m.group(1))))
+        rest = rest[m.end():].strip()
+        while rest and not re.match(r"Ok\(\(\)\)\s*$", rest):
+            m = re.match(r"if\s+([^{]*?)\s*\{\s*" + WR + r"\s*;\s*\}", rest)
+            if m:
+                g = re.sub(r"\s+", "", m.group(1))
+                lit, arg = m.group(2), (re.sub(r"\s+", "", m.group(3)) if m.group(3) else None)
+                if g not in GUARDS or arg not in ARGS:
+                    raise ValueError("guard / argument %r %r" % (g, arg))
+                if (arg is None) != ("{}" not in lit) or (arg is not None and not lit.endswith("{}")) or lit.count("{") > (1 if arg else 0):
+                    raise ValueError("format string %r" % lit)
+                segs.append("SegIf %s %s %s" % (GUARDS[g], coq_bytes(rust_unescape(lit[:-2] if arg else lit)), ARGS[arg]))
+                rest = rest[m.end():].strip()
+                continue
+            m = re.match(r"match\s+self\.same_site\s*\{(.*?)\}", rest, re.S)
+            if m:
+                arms = dict((a, rust_unescape(b)) for a, b in re.findall(r'SameSite::(\w+)\s*=>\s*write!\(\s*f\s*,\s*"((?:[^"\\{]|\\.)*)"\s*\)\?\s*,', m.group(1)))
+                if sorted(arms) != ["Lax", "None", "Strict"] or len(re.findall(r"=>", m.group(1))) != 3:
+                    raise ValueError("same_site arms")
+                segs.append("SegSameSite %s %s %s" % (coq_bytes(arms["Strict"]), coq_bytes(arms["Lax"]), coq_bytes(arms["None"])))
+                rest = rest[m.end():].strip()
+                continue
+            raise ValueError("statement %r" % rest[:60])
+    except Exception as e:   # noqa
+        P.append("src/cookie.rs Display for Cookie: cannot translate (%s)" % e)
+        segs = []
+    L += ["(* src/cookie.rs impl Display for Cookie: the statements of fmt, in order *)",
+          "Definition src_cookie_display : list cookie_seg := [\n  %s]." % ";\n  ".join(segs), ""]
+
     # ---- src/head.rs: the two regex literals
     rx = []
     try:
@@ -344,7 +406,7 @@ def translate(repo):
 
     items = [("chunk", "src/util.rs"), ("event_queue", "src/response.rs"), ("conn_buf", "src/http_conn.rs"),
              ("time", "src/time.rs"), ("content_type", "src/content_type.rs"), ("log_prio", "src/log/logger.rs"),
-             ("event_fmt", "src/event.rs"), ("regex", "src/head.rs")]
+             ("event_fmt", "src/event.rs"), ("regex", "src/head.rs"), ("cookie", "src/cookie.rs")]
     L.append("(* what the translator could not read, per item (0 everywhere = the translation is complete) *)")
     for key, prefix in items:
         L.append("Definition src_problems_%s : nat := %d." % (key, sum(1 for p in P if p.startswith(prefix))))
